@@ -61,6 +61,11 @@ fn other_base(rng: &mut Rng, arch: &Arch) -> Value {
 /// planted prologue has the only alignment mask).
 fn sanitize(ops: &mut [Op], rng: &mut Rng, arch: &Arch, booltemps: &mut HashSet<String>) {
     for o in ops.iter_mut() {
+        // (cost, not class: the bit-serial long division of the reference interpreters on 16-byte operands, executed in a
+        // loop up to the fuel, dominated whole runs; most of them become subtractions)
+        if ["INT_DIV", "INT_REM", "INT_SDIV", "INT_SREM"].contains(&o.mnemonic) && o.inputs[0]["size"].as_u64().unwrap_or(0) > 8 && !rng.chance(1, 8) {
+            o.mnemonic = "INT_SUB";
+        }
         let m = o.mnemonic;
         if BOOL_OPS.contains(&m) {
             let n = if m == "BOOL_NEGATE" { 1 } else { 2 };
@@ -750,7 +755,7 @@ fn one_input(seed: u64, idx: u64, ninits: usize) -> (Value, bool) {
 }
 
 pub fn gen(out: &mut Out, _sub: &str) {
-    let n = out.size(96, 720);
+    let n = out.size(84, 4000);
     let ninit = 3usize;
     let mut counts = std::collections::BTreeMap::new();
     let mut panics = 0u64;
